@@ -55,6 +55,8 @@ Matches(ev) ==
           /\ Len(ev.obs.rel) = Len(tr')
           /\ \A i \in 1..Len(tr') : ev.obs.rel[i] = TGet(tree', tr'[i])
           /\ obs'.exp.anyret \/ obs'.exp.ret = ev.obs.ret
+          \* node-list store: a removed element is released, nothing else is (number of allocated node blocks)
+          /\ "nodes" \in DOMAIN ev.obs => ev.obs.nodes = Count(st')
      ELSE /\ ev.obs.els = pel'
           /\ obs'.exp.anyret \/ obs'.exp.ret = ev.obs.ret
 
